@@ -168,6 +168,13 @@ def run(ctx):
                 has_len = any(any(y[0] == 'call' and y[1].get('name') == 'len' and as_param_path(y[2][0]) == (1, ('difficulty',)) for y in prov.walk(x, limit=20))
                               for x in sides)
                 n_ok = has_n and has_len
+            if not n_ok and narg[0] == 'phi':
+                # the same clamp written as `if n < remaining { n } else { remaining.saturating_sub(1) }` (possibly in a private helper)
+                alts = [prov.strip(x, names=set()) for x in narg[1]]
+                is_n = [as_param_path(x, through_calls=False) == (3, ()) for x in alts]
+                is_len = [any(y[0] == 'call' and y[1].get('name') == 'len' and (as_param_path(y[2][0]) or (0, ()))[1][:1] in (('difficulty',), ()) for y in prov.walk(x, limit=20))
+                          and not any(y == ('param', 3) for y in prov.walk(x, limit=20)) for x in alts]
+                n_ok = any(is_n) and all(a_ or b_ for a_, b_ in zip(is_n, is_len))
             ok_a = as_param_path(call[2][0]) == (1, ('difficulty',)) and n_ok and \
                 'GradualDifficulty' in (call[1].get('path') or '')
         n2 += 1
